@@ -73,8 +73,12 @@ func ghost_arg_remappingFunc_1() bool           { panic("ghost") }
 func ghost_ret_remappingFunc_0[V any]() V       { panic("ghost") }
 func ghost_ret_remappingFunc_1() ComputeOp      { panic("ghost") }
 
-// last clock reading
-func ghost_now() int64 { panic("ghost") }
+// element currently visited by an iteration over the table
+func ghost_ranged[K comparable, V any]() node.Node[K, V] { panic("ghost") }
+
+// last clock reading; clockRead: the clock has been read in this operation
+func ghost_now() int64      { panic("ghost") }
+func ghost_clockRead() bool { panic("ghost") }
 
 // statistics log (shared with stats/verif_contracts.go)
 func ghost_hits() uint64           { panic("ghost") }
@@ -258,9 +262,10 @@ func estOf[K comparable](s *sketch[K], k K) uint64 {
 // ---------------------------------------------------------------------------------------------
 
 //@ iface Clock.NowNano : C12 C03 C01
-//@   assumed A-clock: readings are non-negative unix nanoseconds
-//@   modifies ghost_now()
-//@   ensures [clock-nonneg] result >= 0 && result == ghost_now()
+//@   assumed A-clock: readings are non-negative unix nanoseconds, and the clock only moves between operations (equal readings within one operation, as in the quantifier of C03/C13)
+//@   modifies ghost_now(), ghost_clockRead()
+//@   ensures [clock-nonneg] result >= 0 && result == ghost_now() && ghost_clockRead()
+//@   ensures [clock-constant-within-operation] pre(ghost_clockRead()) ==> ghost_now() == pre(ghost_now())
 
 // ---------------------------------------------------------------------------------------------
 // Maintenance entry points (footprints; the bodies are verified in the C04/C05/C06 blocks below)
@@ -277,6 +282,10 @@ func estOf[K comparable](s *sketch[K], k K) uint64 {
 //@ func (*cache).scheduleDrainBuffers : C01 C03 C12 C20
 //@   assumed footprint of a maintenance run triggered through the executor (C14 is not applicable)
 //@   modifies $MAINT, $EVLOG
+
+//@ func (*cache).maintenance : C01 C03 C19
+//@   assumed footprint only here; the body is verified under C04/C05/C13
+//@   modifies $MAINT, $EVLOG, $ONDEL
 
 //@ func (*cache).afterRead : C01 C03 C12 C20
 //@   requires cfg(c) && nowNano >= 0 && got != nil
@@ -407,7 +416,7 @@ func estOf[K comparable](s *sketch[K], k K) uint64 {
 // per-entry overrides
 //@ func (*cache).SetExpiresAfter : C12 C03 C01 C20
 //@   requires cfg(c)
-//@   modifies $MAINT, $EVLOG, ghost_now(), ghost_tbl(c.hashmap, key).expiresAt
+//@   modifies $MAINT, $EVLOG, ghost_now(), ghost_clockRead(), ghost_tbl(c.hashmap, key).expiresAt
 //@   ensures [C12:override-exact] c.withExpiration && expiresAfter > 0 && pre(ghost_tbl(c.hashmap, key)) != nil && pre(alive(ghost_tbl(c.hashmap, key))) && pre(ghost_expiresAt(ghost_tbl(c.hashmap, key))) > ghost_now() ==> ghost_expiresAt(pre(ghost_tbl(c.hashmap, key))) == satadd(ghost_now(), int64(expiresAfter))
 //@   ensures [C03:no-resurrect] pre(ghost_tbl(c.hashmap, key)) != nil && c.withExpiration && pre(ghost_expiresAt(ghost_tbl(c.hashmap, key))) <= ghost_now() ==> ghost_expiresAt(pre(ghost_tbl(c.hashmap, key))) == pre(ghost_expiresAt(ghost_tbl(c.hashmap, key)))
 //@   ensures [C12:override-ignored] !c.withExpiration || expiresAfter <= 0 ==> pre(ghost_tbl(c.hashmap, key)) == nil || ghost_expiresAt(pre(ghost_tbl(c.hashmap, key))) == pre(ghost_expiresAt(ghost_tbl(c.hashmap, key)))
@@ -415,7 +424,7 @@ func estOf[K comparable](s *sketch[K], k K) uint64 {
 
 //@ func (*cache).SetRefreshableAfter : C12 C03 C01 C20
 //@   requires cfg(c)
-//@   modifies ghost_now(), ghost_tbl(c.hashmap, key).refreshableAt
+//@   modifies ghost_now(), ghost_clockRead(), ghost_tbl(c.hashmap, key).refreshableAt
 //@   ensures [C12:refresh-override-exact] c.withRefresh && refreshableAfter > 0 && pre(ghost_tbl(c.hashmap, key)) != nil && pre(alive(ghost_tbl(c.hashmap, key))) && pre(live(ghost_tbl(c.hashmap, key), 0)) && (!c.withExpiration || pre(ghost_expiresAt(ghost_tbl(c.hashmap, key))) > ghost_now()) ==> ghost_refreshableAt(pre(ghost_tbl(c.hashmap, key))) == satadd(ghost_now(), int64(refreshableAfter))
 //@   ensures [C03:no-touch-expired] pre(ghost_tbl(c.hashmap, key)) != nil && c.withRefresh && c.withExpiration && pre(ghost_expiresAt(ghost_tbl(c.hashmap, key))) <= ghost_now() ==> ghost_refreshableAt(pre(ghost_tbl(c.hashmap, key))) == pre(ghost_refreshableAt(ghost_tbl(c.hashmap, key)))
 //@   ensures [C20:quiet] ghost_hits() == pre(ghost_hits()) && ghost_misses() == pre(ghost_misses())
@@ -566,7 +575,7 @@ func estOf[K comparable](s *sketch[K], k K) uint64 {
 
 //@ func (*cache).GetEntryQuietly : C01 C03 C20
 //@   requires cfg(c)
-//@   modifies ghost_now()
+//@   modifies ghost_now(), ghost_clockRead()
 //@   ensures [C03:no-entry-after-deadline] r1 ==> live(ghost_tbl(c.hashmap, key), ghost_now()) && same(r0.Value, ghost_value(ghost_tbl(c.hashmap, key))) && same(r0.Key, key)
 //@   ensures [C01:present-is-found] live(ghost_tbl(c.hashmap, key), ghost_now()) && alive(ghost_tbl(c.hashmap, key)) ==> r1
 //@   ensures [C12:entry-deadline-is-node-deadline] r1 && c.withExpiration ==> r0.ExpiresAtNano == ghost_expiresAt(ghost_tbl(c.hashmap, key))
@@ -668,3 +677,34 @@ func estOf[K comparable](s *sketch[K], k K) uint64 {
 //@   modifies *
 //@   ensures [C03:expired-or-missing-is-absent] !liveAt(pre(ghost_tbl(c.hashmap, key)), pre(ghost_expiresAt(ghost_tbl(c.hashmap, key))), ghost_now()) ==> !r1 && same(r0, zeroValue[V]()) && ghost_calls_remappingFunc() == pre(ghost_calls_remappingFunc())
 //@   ensures [C20:one-lookup] ghost_hits()+ghost_misses() == pre(ghost_hits()+ghost_misses()) + 1
+
+// iteration: only live entries are handed to the consumer
+//@ func (*cache).nodes : C01 C03
+//@   requires cfg(c)
+//@   modifies *
+//@   result-callback yield: requires [C03:iterates-live-only] cb0 == ghost_ranged[K, V]() && live(cb0, ghost_now()) && alive(cb0) && ghost_clockRead()
+
+//@ func (*cache).All : C01 C03
+//@   requires cfg(c)
+//@   modifies *
+//@   result-callback yield: requires [C03:iterates-live-only] same(cb0, ghost_key(ghost_ranged[K, V]())) && same(cb1, ghost_value(ghost_ranged[K, V]())) && live(ghost_ranged[K, V](), ghost_now()) && alive(ghost_ranged[K, V]())
+
+//@ func (*cache).Keys : C01 C03
+//@   requires cfg(c)
+//@   modifies *
+//@   result-callback yield: requires [C03:iterates-live-only] same(cb0, ghost_key(ghost_ranged[K, V]())) && live(ghost_ranged[K, V](), ghost_now()) && alive(ghost_ranged[K, V]())
+
+//@ func (*cache).Values : C01 C03
+//@   requires cfg(c)
+//@   modifies *
+//@   result-callback yield: requires [C03:iterates-live-only] same(cb0, ghost_value(ghost_ranged[K, V]())) && live(ghost_ranged[K, V](), ghost_now()) && alive(ghost_ranged[K, V]())
+
+//@ func (*cache).entries : C01 C03 C19
+//@   requires cfg(c)
+//@   modifies *
+//@   result-callback yield: requires [C03:iterates-live-only] same(cb0.Key, ghost_key(ghost_ranged[K, V]())) && same(cb0.Value, ghost_value(ghost_ranged[K, V]())) && (!c.withExpiration || cb0.ExpiresAtNano > cb0.SnapshotAtNano) && alive(ghost_ranged[K, V]())
+
+//@ func (*cache).evictionOrder : C01 C03 C19 C05
+//@   requires cfg(c)
+//@   modifies *
+//@   result-callback yield: requires [C03:ordered-iteration-live-only] !c.withExpiration || cb0.ExpiresAtNano > cb0.SnapshotAtNano
